@@ -18,6 +18,18 @@ CHECKS = {
         "amplifying configurations (Re(lambda*dt) > 3 on some stored mode) are skipped as ill-conditioned and listed.",
         "DESIGN.md §4 C01",
     ),
+    "C02": (
+        "bounded exhaustive exploration of a z-lattice x scheme orders x nonlinear-term alphabet, lock-step with a phi-function reference ETDRK model; conformance of every public stepper to that model",
+        "(a) ETDRK1-4 integrators are built directly on a lattice of ~580 values z=lambda*dt (real axis [-1e9,20], imaginary axis, left-half-plane rays, "
+        "z=0) x dt in {1,0.01,7} x {constant, alpha*u for 5 alphas, pointwise square} x 3 states and step_fourier is compared with the Cox-Matthews "
+        "scheme on exact phi functions: since a step is a degree-p polynomial in alpha whose coefficients are products of the scheme coefficients, "
+        "this pins every coefficient on every lattice point. (b) every public semi-linear stepper x order 0-4 x small grids x states is compared with "
+        "the same reference scheme on the documented symbol and the public nonlinear term, so the stepper-level claim follows compositionally. "
+        "(c) dt-halving ladders confirm order p for 8 families. Bounded model checking is the right level: coefficients are per-mode functions of z only.",
+        "Trusted: mc/ref.py (phi functions, reference scheme; self-tested for convergence order on a scalar complex ODE), numpy. z between lattice "
+        "points and grids beyond the bounds are not covered; (b) relies on C03 for the nonlinear terms themselves.",
+        "DESIGN.md §4 C02",
+    ),
     "C14": (
         "bounded exhaustive exploration of the option product, lock-step with a plain-loop reference model",
         "Every (n, include_init, takes_aux, constant_aux, pytree shape, aux shape) combination up to the bound, every window (T, sub_len), "
